@@ -6,9 +6,12 @@ from concurrent.futures import ThreadPoolExecutor
 import vfbuild
 from vfbuild import VERIF, REPO
 
-WORK = os.path.join(VERIF, '.work')
-REPLAYS = os.path.join(VERIF, 'replays')
-EVID = os.path.join(VERIF, 'evidence')
+# VERIF_OUT redirects everything a run writes (scratch trials against a mutated copy of the repo:
+# VERIF_REPO=/tmp/wt VERIF_BUILD=/tmp/wt.build VERIF_OUT=/tmp/wt.out ./vf check Cxx)
+OUT = os.environ.get('VERIF_OUT') or VERIF
+WORK = os.path.join(OUT, '.work')
+REPLAYS = os.path.join(OUT, 'replays')
+EVID = os.path.join(OUT, 'evidence')
 KNOWN = os.path.join(VERIF, 'known_findings.txt')
 UBSAN_SUPP = os.path.join(VERIF, 'ubsan.supp')
 
